@@ -218,7 +218,8 @@ def attach(model):
         m._createLookupBinary, m._updateParticleSizeDistribution, m.getDt, m.postProcess)
 
     def pre():
-        rec.cur = dict(pre=rec.state(), evals=0, dtmin=float(rec.solver._dtmin), dtmax=float(rec.solver._dtmax),
+        rec.seq = getattr(rec, 'seq', 0) + 1
+        rec.cur = dict(seq=rec.seq, pre=rec.state(), evals=0, dtmin=float(rec.solver._dtmin), dtmax=float(rec.solver._dtmax),
                        tf=float(m.finalTime), post_ans=None, eval_ans=[], upd=[None] * rec.P, dtProp=None, raised=None)
         return o_pre()
     m.preProcess = pre
@@ -679,7 +680,7 @@ def _one(ctx, res, prop, name, cap, observer, oracles=()):
         solver = 'rk4' if 'rk4' in opts else 'euler'
         if '2solves' in opts:
             # two solve calls; the first one ends by itself (short simulated time), the second runs into the step cap
-            first = simt * ctx.rng.uniform(0.002, 0.01)
+            first = ctx.rng.uniform(0.03, 0.3)
             n1 = kwnruns.run(m, first, solver=solver, max_steps=cap // 2, observer=observer)
             m._verif_obs = False      # a fresh step counter for the second call
             m.couplingModels = [c for c in m.couplingModels if type(c).__name__ != 'Obs']
@@ -788,7 +789,7 @@ def step_oracles(res, rec, cfg, name, which):
                             res.violate('composed:stored-volume-differs', 'third moment of the stored distribution after the step (incl. extension / re-mesh) '
                                         'differs from that of the state the recorded row was computed from', dict(case, phase=p, bins=(pp['bins'], ph['bins'])),
                                         vol_store, vol_state)
-        if 'continuity' in which and i + 1 < len(steps):
+        if 'continuity' in which and i + 1 < len(steps) and steps[i + 1]['seq'] == st['seq'] + 1:
             d = _eq_state(post, steps[i + 1]['pre'])
             if d:
                 res.violate('composed:state-changed-between-steps', 'the model state on entry of a step differs from the state at the end of the '
